@@ -44,6 +44,37 @@ type LStmt struct {
 	HasBody bool     `json:"hb,omitempty"` // render a (possibly empty) map
 	Raw     string   `json:"raw,omitempty"`
 	Tag     string   `json:"t,omitempty"` // free semantic tag for the twin builders
+	Imp     *LImp    `json:"imp,omitempty"`
+}
+
+// LImp is an import: spread (`...@path[.key]`, Key of the statement unused) or value
+// (`Key: @path[.key]`). Path is written as given (relative to the importing file, with or
+// without `./`, `../`, `.d2`); Quoted renders it as a double-quoted string.
+type LImp struct {
+	Path   string   `json:"p"`
+	Key    []string `json:"k,omitempty"`
+	Spread bool     `json:"s,omitempty"`
+	Quoted bool     `json:"q,omitempty"`
+}
+
+func (i *LImp) Render() string {
+	p := i.Path
+	if i.Quoted {
+		// the leading ./ ../ run stays outside the quotes (it is the import's "pre")
+		j := 0
+		for j < len(p) && (p[j] == '.' || p[j] == '/') {
+			j++
+		}
+		p = p[:j] + `"` + p[j:] + `"`
+	}
+	s := "@" + p
+	if len(i.Key) > 0 {
+		s += "." + strings.Join(i.Key, ".")
+	}
+	if i.Spread {
+		return "..." + s
+	}
+	return s
 }
 
 func LLit(s string) *LVal     { return &LVal{Parts: []LPart{{Lit: s}}} }
@@ -66,6 +97,11 @@ func LClone(in []*LStmt) []*LStmt {
 			c.Val = s.Val.Clone()
 		}
 		c.Body = LClone(s.Body)
+		if s.Imp != nil {
+			im := *s.Imp
+			im.Key = append([]string(nil), s.Imp.Key...)
+			c.Imp = &im
+		}
 		out[i] = &c
 	}
 	return out
@@ -164,6 +200,14 @@ func lrender(sb *strings.Builder, stmts []*LStmt, depth int) {
 		if s.Raw != "" {
 			sb.WriteString(s.Raw)
 			sb.WriteString("\n")
+			continue
+		}
+		if s.Imp != nil {
+			if s.Imp.Spread {
+				sb.WriteString(s.Imp.Render() + "\n")
+			} else {
+				sb.WriteString(s.Head() + ": " + s.Imp.Render() + "\n")
+			}
 			continue
 		}
 		sb.WriteString(s.Head())
